@@ -58,6 +58,7 @@ class Emitter:
         self.bases = {}  # tag -> [base tags] in order
         self.protos = {}  # cname -> (ret, [param ctypes], source type string)
         self.globals = {}  # cname -> ctype
+        self.const_globals = {}  # cname -> (C++ name, tu) of globals used as compile-time constants
         self.enum_consts = {}  # C name -> (enum type, const name)
         self.lifted = []  # extra function texts (lambdas)
         self.unit = None
@@ -246,6 +247,10 @@ class Emitter:
             if kind == "VarDecl" and rd["id"] not in self.locals and not self.is_local_name(name):
                 # global / static member variable
                 cn = self.global_name(n, rd)
+                if n.get("nonOdrUseReason") == "constant" and getattr(self, "cur_tu", None):
+                    # compile-time constant (constexpr / const with constant initialiser): its value is looked up
+                    # in the same TU by cxx2c.translate and emitted as the initialiser of the C global
+                    self.const_globals.setdefault(cn, (name, self.cur_tu))
                 return cn
             cname = self.local_name(rd)
             if rd["id"] in self.ref_ids:
@@ -794,6 +799,10 @@ class Emitter:
             then = n["inner"][-1]
             if self.is_log_stmt(then):
                 return True
+            # the `if (enabled)` of a log macro: only when the `if` token itself comes from a macro expansion;
+            # a user-written `if (c) { XBT_DEBUG(..); real_statement; }` is NOT a log statement
+            if "spellingLoc" not in n.get("range", {}).get("begin", {}):
+                return False
             return contains(then, lambda x: x.get("kind") == "CallExpr" and
                             skip(x["inner"][0]).get("referencedDecl", {}).get("name") in LOG_CALLS) and \
                 not contains(then, lambda x: x.get("kind") == "CallExpr" and
@@ -981,6 +990,10 @@ class Emitter:
         c = inner.pop(0)
         then = inner.pop(0)
         els = inner.pop(0) if inner else None
+        if c.get("kind") == "CXXBoolLiteralExpr" and c.get("value") is False and not opened:
+            # `if (false) {...}` spelled with the literal: the then-branch is dead code (debug scaffolding), not emitted
+            self.dropped.append("if(false)")
+            return self.body(els, ind) if els is not None else []
         pre, ce = self.with_pre(lambda: self.E(c))
         if pre and not opened:
             out.append(ind + "{")
